@@ -25,7 +25,8 @@ theorem RX.nodupNames {s : Store} (h : RX s) : (s.clusters.map (·.name)).Nodup 
 def addClusterResult (s : Store) (name : String) (cfg : Config) (chunks : List Chunk) : Store :=
   { globalEpoch := s.globalEpoch + 1,
     clusters := s.clusters ++ [{ epoch := s.globalEpoch + 1, name := name, chunks := chunks, config := cfg }],
-    proxies := tagAll s.proxies (chunkAddrs chunks) (some name), failed := s.failed, failures := s.failures }
+    proxies := tagAll s.proxies (chunkAddrs chunks) (some name), failed := s.failed, failures := s.failures,
+    ordered := s.ordered }
 
 theorem addCluster_spec (s : Store) (name : String) (k : Nat) (cfg : Config) (choice : List (String × String)) :
     ((addCluster s name k cfg choice).1 = s ∧ ∀ u, (addCluster s name k cfg choice).2 ≠ R.ok u) ∨
@@ -33,6 +34,8 @@ theorem addCluster_spec (s : Store) (name : String) (k : Nat) (cfg : Config) (ch
         chunks.length = (k / 2 + 1) / 2 ∧ k % 4 = 0 ∧ k / 2 ≠ 0 ∧
         addCluster s name k cfg choice = (addClusterResult s name cfg chunks, R.ok ())) := by
   unfold addCluster
+  split
+  · exact Or.inl ⟨rfl, by intro u h; cases h⟩
   split
   · exact Or.inl ⟨rfl, by intro u h; cases h⟩
   rename_i hv
@@ -82,7 +85,7 @@ def addNodesResult (s : Store) (cl : Cluster) (new : List Chunk) : Store :=
   { globalEpoch := s.globalEpoch + 1,
     clusters := (s.setCluster { cl with chunks := cl.chunks ++ new, epoch := s.globalEpoch + 1 }).clusters,
     proxies := tagAll s.proxies (chunkAddrs (cl.chunks ++ new)) (some cl.name),
-    failed := s.failed, failures := s.failures }
+    failed := s.failed, failures := s.failures, ordered := s.ordered }
 
 theorem autoAddNodes_spec (s : Store) (name : String) (k : Nat) (choice : List (String × String)) :
     ((autoAddNodes s name k choice).1 = s ∧ ∀ u, (autoAddNodes s name k choice).2 ≠ R.ok u) ∨
@@ -151,7 +154,8 @@ theorem removeCluster_spec (s : Store) (name : String) :
     (∃ cl, s.findCluster name = some cl ∧
       removeCluster s name =
         ({ globalEpoch := s.globalEpoch + 1, clusters := s.clusters.filter (·.name != name),
-           proxies := tagAll s.proxies cl.proxyAddrs none, failed := s.failed, failures := s.failures },
+           proxies := tagAll s.proxies cl.proxyAddrs none, failed := s.failed, failures := s.failures,
+           ordered := s.ordered },
          R.ok ())) := by
   unfold removeCluster
   split
@@ -181,7 +185,7 @@ def delFreeResult (s : Store) (cl : Cluster) : Store :=
     clusters := (s.setCluster { cl with chunks := cl.chunks.filter (fun c => !c.isFree),
                                          epoch := s.globalEpoch + 1 }).clusters,
     proxies := tagAll s.proxies (chunkAddrs (cl.chunks.filter Chunk.isFree)) none,
-    failed := s.failed, failures := s.failures }
+    failed := s.failed, failures := s.failures, ordered := s.ordered }
 
 theorem autoDeleteFreeNodes_spec (s : Store) (name : String) :
     ((autoDeleteFreeNodes s name).1 = s ∧ ∀ u, (autoDeleteFreeNodes s name).2 ≠ R.ok u) ∨
@@ -231,28 +235,40 @@ theorem rx_autoDeleteFreeNodesIfExists {s : Store} (name : String) (hx : RX s) :
 
 /-! ## add_proxy / remove_proxy -/
 
-theorem addProxy_clusters (s : Store) (a n0 n1 : String) (h : Option String) :
-    (addProxy s a n0 n1 h).1.clusters = s.clusters := by
+theorem addProxy_clusters (s : Store) (a n0 n1 : String) (h : Option String) (i : Option Nat) :
+    (addProxy s a n0 n1 h i).1.clusters = s.clusters := by
   unfold addProxy
   split
   · rfl
-  · simp only; split <;> rfl
+  · simp only
+    split
+    · rfl
+    · split <;> rfl
 
-theorem addProxy_proxies (s : Store) (a n0 n1 : String) (h : Option String) :
-    (addProxy s a n0 n1 h).1.proxies =
+/-- the proxy list after `add_proxy` (`MissingIndex` = ordered mode without an index) -/
+theorem addProxy_proxies (s : Store) (a n0 n1 : String) (h : Option String) (i : Option Nat) :
+    (addProxy s a n0 n1 h i).1.proxies =
       if colonCount a != 1 then s.proxies
-      else if (s.findProxy a).isSome then s.proxies
-      else s.proxies ++ [{ addr := a, node0 := n0, node1 := n1, host := h.getD (hostOfAddr a), index := 0,
+      else match proxyIndex s i with
+      | none => s.proxies
+      | some idx =>
+      if (s.findProxy a).isSome then s.proxies
+      else s.proxies ++ [{ addr := a, node0 := n0, node1 := n1, host := h.getD (hostOfAddr a), index := idx,
                            cluster := none }] := by
   unfold addProxy
   split
   · rfl
-  · simp only; split <;> rfl
+  · simp only
+    split
+    · rename_i heq; simp only [heq]
+    · rename_i heq; simp only [heq]; split <;> rfl
 
-theorem rx_addProxy {s : Store} (a n0 n1 : String) (h : Option String) (hx : RX s) :
-    RX (addProxy s a n0 n1 h).1 := by
-  have hc := addProxy_clusters s a n0 n1 h
-  have hp := addProxy_proxies s a n0 n1 h
+theorem rx_addProxy {s : Store} (a n0 n1 : String) (h : Option String) (i : Option Nat) (hx : RX s) :
+    RX (addProxy s a n0 n1 h i).1 := by
+  have hc := addProxy_clusters s a n0 n1 h i
+  have hp := addProxy_proxies s a n0 n1 h i
+  split at hp
+  · exact (show SkelEq _ s from ⟨hp, by rw [hc]⟩).rx hx
   split at hp
   · exact (show SkelEq _ s from ⟨hp, by rw [hc]⟩).rx hx
   · split at hp
